@@ -8,9 +8,10 @@
    A stream type is a state type St with
      step : St -> option E * St      Iterator::next on a clone: the yielded element (None =
                                      exhausted) and the state afterwards
-     len  : St -> outcome (option Z) the type's Stream::len; Ok None = "infinite",
-                                     Panic = usize overflow in a debug build.
-   BigInt (NInt) arithmetic is exact Z arithmetic; usize arithmetic is checked. *)
+     len  : St -> outcome (option Z) the type's Stream::len; Ok None = "infinite" (also what
+                                     the closed forms answer when the count does not fit usize).
+   BigInt (NInt) arithmetic is exact Z arithmetic; usize arithmetic is checked
+   (usize::checked_add / checked_mul are to_usize_z of the exact result). *)
 From Coq Require Import ZArith List Bool Arith.
 From NV Require Import Common.Outcome Common.MachineInt Seq.Index.
 Import ListNotations.
@@ -136,22 +137,33 @@ Definition perm_step (s : ivstate) : option (list nat) * ivstate :=
   | None => (None, None)
   | Some v => (Some v, perm_succ v)
   end.
-(* Stream::len: sum over i in 1..n of i! * #{ j in n-i..n : v[j] > v[n-1-i] }, plus 1; usize *)
+(* Stream::len: 1 + sum over i in 1..n of i! * #{ j in n-i..n : v[j] > v[n-1-i] }, in checked
+   usize arithmetic; `?` on an overflow returns None.  The loop state is (cur, total) with
+   cur : Option<usize>; None of the whole = the function returned None. *)
 Definition count_gt (v : list nat) (lo cnt : nat) (x : nat) : Z :=
   Z.of_nat (length (filter (fun j => (x <? nth j v O)%nat) (seq lo cnt))).
-Definition perm_len_vec (v : list nat) : outcome Z :=
+Definition omul (a : option Z) (b : Z) : option Z :=
+  match a with Some c => to_usize_z (c * b) | None => None end.
+(* total.checked_add(d.checked_mul(cur?)?)? *)
+Definition add_term (total : Z) (d : Z) (cur : option Z) : option Z :=
+  match omul cur d with Some t => to_usize_z (total + t) | None => None end.
+Definition perm_len_vec (v : list nat) : option Z :=
   let n := length v in
-  r <- fold_left (fun acc i =>
-         cs <- acc ;;
-         cur <- mul_usize (fst cs) (Z.of_nat i) ;;
-         t <- mul_usize cur (count_gt v (n - i) i (nth (n - 1 - i) v O)) ;;
-         sum <- add_usize (snd cs) t ;;
-         Ok (cur, sum)) (seq 1 (n - 1)) (Ok (1, 0)) ;;
-  add_usize (snd r) 1.
+  option_map snd
+    (fold_left (fun acc i =>
+       match acc with
+       | None => None
+       | Some (cur, total) =>
+         let cur' := omul cur (Z.of_nat i) in
+         let larger := count_gt v (n - i) i (nth (n - 1 - i) v O) in
+         if 0 <? larger
+         then match add_term total larger cur' with Some t => Some (cur', t) | None => None end
+         else Some (cur', total)
+       end) (seq 1 (n - 1)) (Some (Some 1, 1))).
 Definition perm_len (s : ivstate) : outcome (option Z) :=
   match s with
   | None => Ok (Some 0)
-  | Some v => omap Some (perm_len_vec v)
+  | Some v => Ok (perm_len_vec v)
   end.
 (* permutations(xs): Some((0..n).collect()) *)
 Definition perm_init (n : nat) : ivstate := Some (seq 0 n).
@@ -203,20 +215,26 @@ Fixpoint mask_select {A} (v : list bool) (base : list A) : list A :=
   | b :: v', x :: base' => if b then x :: mask_select v' base' else mask_select v' base'
   | _, _ => []
   end.
-(* Stream::len: (cur, sum) after `(0..n).rev().map(|i| { s = if !v[i] {cur} else {0}; cur *= 2; s }).sum()` *)
-Fixpoint sub_len_aux (v : list bool) : outcome (Z * Z) :=
+(* Stream::len: `for i in (0..n).rev() { if !v[i] { total = total.checked_add(cur?)? }
+   cur = cur.and_then(|c| c.checked_mul(2)) }` starting from (Some(1), 1); the result for a
+   list is the loop state after its positions (the tail is processed first) *)
+Fixpoint sub_len_aux (v : list bool) : option (option Z * Z) :=
   match v with
-  | [] => Ok (1, 0)
+  | [] => Some (Some 1, 1)
   | b :: r =>
-    cs <- sub_len_aux r ;;
-    cur <- mul_usize (fst cs) 2 ;;
-    sum <- add_usize (snd cs) (if b then 0 else fst cs) ;;
-    Ok (cur, sum)
+    match sub_len_aux r with
+    | None => None
+    | Some (cur, total) =>
+      match (if b then Some total else add_term total 1 cur) with
+      | None => None
+      | Some t => Some (omul cur 2, t)
+      end
+    end
   end.
 Definition sub_len (s : option (list bool)) : outcome (option Z) :=
   match s with
   | None => Ok (Some 0)
-  | Some v => cs <- sub_len_aux v ;; n <- add_usize (snd cs) 1 ;; Ok (Some n)
+  | Some v => Ok (option_map snd (sub_len_aux v))
   end.
 Definition sub_init (n : nat) : option (list bool) := Some (repeat false n).
 
@@ -235,23 +253,29 @@ Definition cart_step (m : nat) (s : ivstate) : option (list nat) * ivstate :=
   | None => (None, None)
   | Some v => (Some v, cart_inc m v)
   end.
-(* Stream::len: s = (m - 1 - v[i]) * cur; cur *= m; sum + 1 *)
-Fixpoint cart_len_aux (m : Z) (v : list nat) : outcome (Z * Z) :=
+(* Stream::len: `for i in (0..k).rev() { let d = m - 1 - v[i]; if d > 0 { total =
+   total.checked_add(d.checked_mul(cur?)?)? } cur = cur.and_then(|c| c.checked_mul(m)) }`;
+   the subtraction is plain usize arithmetic (Panic below zero: not for valid coordinates) *)
+Fixpoint cart_len_aux (m : Z) (v : list nat) : outcome (option (option Z * Z)) :=
   match v with
-  | [] => Ok (1, 0)
+  | [] => Ok (Some (Some 1, 1))
   | d :: r =>
-    cs <- cart_len_aux m r ;;
-    a <- sub_usize m 1 ;;
-    b <- sub_usize a (Z.of_nat d) ;;
-    s <- mul_usize b (fst cs) ;;
-    cur <- mul_usize (fst cs) m ;;
-    sum <- add_usize (snd cs) s ;;
-    Ok (cur, sum)
+    a <- cart_len_aux m r ;;
+    match a with
+    | None => Ok None
+    | Some (cur, total) =>
+      e <- sub_usize m 1 ;;
+      e <- sub_usize e (Z.of_nat d) ;;
+      match (if 0 <? e then add_term total e cur else Some total) with
+      | None => Ok None
+      | Some t => Ok (Some (omul cur m, t))
+      end
+    end
   end.
 Definition cart_len (m : nat) (s : ivstate) : outcome (option Z) :=
   match s with
   | None => Ok (Some 0)
-  | Some v => cs <- cart_len_aux (Z.of_nat m) v ;; n <- add_usize (snd cs) 1 ;; Ok (Some n)
+  | Some v => omap (option_map snd) (cart_len_aux (Z.of_nat m) v)
   end.
 (* xs ^^ k: None when xs is empty and k > 0, else Some(vec![0; k]) *)
 Definition cart_init (m k : nat) : ivstate :=
